@@ -8,7 +8,14 @@ package scen
 
 import (
 	"fmt"
+	"net/http"
+	"net/http/httptest"
 	"reflect"
+	"strings"
+
+	z "github.com/Oudwins/zog"
+	"github.com/Oudwins/zog/parsers/zjson"
+	"github.com/Oudwins/zog/zhttp"
 
 	"zogverif/mc"
 	"zogverif/zh"
@@ -100,10 +107,66 @@ func c09Scenario(a *Alpha, ns NamedSkel, focus []string, elems int) mc.Scenario 
 	}
 }
 
+// Input documents whose keys differ only in letter case or surrounding blanks, through the map-like front ends:
+// whatever a front end does with such keys, the result must not depend on the order in which any map is iterated
+// (every range-over-map site of the library is hooked, including sites a change adds).
+type c09Rec struct {
+	Email string `json:"email"`
+	Addr  struct {
+		Zip string `json:"zip"`
+	} `json:"addr"`
+}
+
+func c09InputKeysScenario(x *mc.X) *mc.Outcome {
+	fe := x.Choose(3, "frontEnd") // 0 Go map, 1 zjson, 2 zhttp JSON body
+	doc := map[string]any{}
+	var desc []string
+	for i, k := range []string{"email", "Email", "EMAIL", " email"} {
+		if x.Choose(2, "key."+k) == 1 {
+			doc[k] = []string{"aaaa", "b", "cccc", "dd"}[i]
+			desc = append(desc, k)
+		}
+	}
+	for i, k := range []string{"addr", "Addr", "ADDR"} {
+		if x.Choose(2, "key."+k) == 1 {
+			doc[k] = map[string]any{"zip": []string{"11", "2", "333"}[i], "ZIP": "9"}
+			desc = append(desc, k)
+		}
+	}
+	text := callJSON(doc)
+	run := func(om zh.OrderMode) (*Obs, string) {
+		zh.Reset()
+		zh.Install(x, zh.PoolLIFO, om)
+		s := z.Struct(z.Schema{"email": z.String().Min(3).Required(), "addr": z.Struct(z.Schema{"zip": z.String().Min(2).Required()})})
+		var d c09Rec
+		var data any = doc
+		switch fe {
+		case 1:
+			data = zjson.Decode(strings.NewReader(text))
+		case 2:
+			r := httptest.NewRequest(http.MethodPost, "/", strings.NewReader(text))
+			r.Header.Set("Content-Type", "application/json")
+			data = zhttp.Request(r)
+		}
+		o := RunParse(s, data, reflect.ValueOf(&d))
+		zh.Reset()
+		return o, fmt.Sprintf("%+v", d)
+	}
+	bo, bd := run(zh.OrderSorted)
+	po, pd := run(zh.OrderFree)
+	out := &mc.Outcome{Traces: 2, Nontrivial: len(doc) > 0, Sig: fmt.Sprintf("inputkeys|%d|%v|%v", fe, desc, bo.IssueStrings())}
+	out.Sample = map[string]any{"front_end": fe, "document": text, "issues": bo.IssueStrings(), "dest": bd}
+	if bo.Panic != po.Panic || !eqStrings(bo.IssueStrings(), po.IssueStrings()) || bd != pd {
+		x.Note("front end %d (0 Go map, 1 zjson, 2 zhttp JSON), document %s", fe, text)
+		out.Viol = append(out.Viol, &mc.Violation{Key: "C09:input-key-order", What: "the result depends on the order in which a map (the input's keys or the schema's fields) is iterated", Expected: fmt.Sprintf("sorted order: %v %s", bo.IssueStrings(), bd), Observed: fmt.Sprintf("another order: %v %s", po.IssueStrings(), pd)})
+	}
+	return out
+}
+
 func init() {
 	Register(&Prop{
 		ID:    "C09",
-		Rule:  "one execution = one core case (skeletons with a ≥2-field struct, ≤k focus units over full alphabets, both modes) run twice on the real code: canonical sorted visit order vs. the permutation chosen at every struct visit (all permutations enumerated, jointly across nesting levels and slice elements); non-trivial = non-identity permutation on a deviating case; distinct = distinct (skeleton, mode, issue multiset, permutation vector)",
+		Rule:  "one execution = one core case (skeletons with a ≥2-field struct, ≤k focus units over full alphabets, both modes) run twice on the real code: canonical sorted visit order vs. the permutation chosen at every struct visit (all permutations enumerated, jointly across nesting levels and slice elements); plus input documents holding any subset of keys that differ only in letter case / blanks (top level and nested) through Go map, zjson and zhttp JSON, sorted order vs every permutation at every hooked range-over-map site; non-trivial = non-identity permutation on a deviating case; distinct = distinct (skeleton, mode, issue multiset, permutation vector)",
 		Floor: 50,
 		Bound: func(tier string) string {
 			k, e := coreK(tier)
@@ -118,6 +181,7 @@ func init() {
 			for _, it := range coreItemsFiltered(tier, c09Scenario, nil, []int{0, 1}, 0, func(ns NamedSkel) bool { return hasMultiFieldStruct(ns.S) }) {
 				items = append(items, it)
 			}
+			items = append(items, Item{Name: "input-keys", MaxDevs: -1, Run: c09InputKeysScenario})
 			return items
 		},
 	})
